@@ -537,6 +537,10 @@ func main() {
 	rep := report.New("C20", "fault_enumeration")
 	rep.Rule = "the real pull client (media.GetOrCreate -> pullStreamFactory -> PullClient) talks to a scripted camera over an in-memory connection on the virtual clock; the camera's answer to every request of the handshake is an environment choice among {200, 401 Digest, 401 Basic, 404, 500, malformed status line, garbage, silence, reset, EOF mid-body, 401 for ever}, the dial may be refused or time out, and after PLAY the camera chooses among {stay open, EOF, silence past the read deadline, malformed frame, unknown channel, garbage}; every combination of up to E deviations is enumerated (and up to P scheduling deviations between concurrent requesters); distinct = distinct (scenario, dials, outcome, faults taken)"
 	rep.Assumptions = []string{"virtual time: a read without a deadline on a silent peer shows up as a thread blocked for ever", "sequentially consistent memory"}
+	runner.FineP = 1 // statement-level points in the files of fine.txt
+	if rep.Thorough() {
+		runner.FineP = 2
+	}
 	runner.Run(rep, scenarios(rep.Thorough()))
 	rep.Finish()
 }
